@@ -12,11 +12,19 @@
 (* <<"f", p>> (forced write), <<"disc">>, <<"disc_now">>.                  *)
 (* Locked = FALSE drops the lock from the forced write (a self-test:       *)
 (* TLC must then find FramesContiguous violated).                          *)
+(* With Login = TRUE the networking thread starts with LoginReactor's      *)
+(* answer to an encryption request: forced write of the response (packet   *)
+(* 0) under the lock, then installation of the cipher.  A chunk records     *)
+(* whether the cipher was installed when it was sent.  SwapUnderLock =     *)
+(* FALSE is the code as it was (the lock was released before the swap):    *)
+(* TLC must find NoPlaintextAfterEncResponse violated.                     *)
 (***************************************************************************)
 EXTENDS Naturals, Sequences, FiniteSets, TLC
 
 CONSTANTS Users, Progs,   \* Progs: set of functions from user to program (one is chosen in Init)
-          W, Locked
+          W, Locked,
+          Login,           \* TRUE: the networking thread first answers an encryption request (login)
+          SwapUnderLock    \* TRUE: the cipher is installed before the write lock is released (code after the fix)
 
 VARIABLES lock,       \* owner: a user, "nt" or "none"
           queue,      \* sequence of packets
@@ -26,14 +34,16 @@ VARIABLES lock,       \* owner: a user, "nt" or "none"
           npc, ncur, nw,      \* networking thread: pc, packet in flight, writes this round
           enq,        \* packets in the order they were enqueued (history)
           discAt,     \* 0, or Len(enq) at the moment a non-immediate disconnect acquired the lock
-          immAt       \* 0, or Len(wire) + 1 at the moment an immediate disconnect acquired the lock
-vars == <<lock, queue, wire, closed, prog, upc, ucur, npc, ncur, nw, enq, discAt, immAt>>
+          immAt,      \* 0, or Len(wire) + 1 at the moment an immediate disconnect acquired the lock
+          cipher      \* the encrypting socket wrapper is installed
+vars == <<lock, queue, wire, closed, prog, upc, ucur, npc, ncur, nw, enq, discAt, immAt, cipher>>
 
 Init == /\ lock = "none" /\ queue = <<>> /\ wire = <<>> /\ closed = FALSE
         /\ prog \in Progs /\ upc = [u \in Users |-> "idle"] /\ ucur = [u \in Users |-> 0]
-        /\ npc = "top" /\ ncur = 0 /\ nw = 0 /\ enq = <<>> /\ discAt = 0 /\ immAt = 0
+        /\ npc = (IF Login THEN "e_lock" ELSE "top") /\ ncur = 0 /\ nw = 0 /\ enq = <<>> /\ discAt = 0 /\ immAt = 0
+        /\ cipher = FALSE
 
-Send(by, p, part) == wire' = IF closed THEN wire ELSE Append(wire, <<by, p, part>>)   \* after close the send raises
+Send(by, p, part) == wire' = IF closed THEN wire ELSE Append(wire, <<by, p, part, cipher>>)   \* after close the send raises
 
 \* ---------------------------------------------------------------- user threads
 Op(u) == Head(prog[u])
@@ -42,65 +52,77 @@ U_Start(u) ==
   /\ CASE Op(u)[1] = "q" ->       \* deque.append, no lock
             /\ queue' = Append(queue, Op(u)[2]) /\ enq' = Append(enq, Op(u)[2])
             /\ prog' = [prog EXCEPT ![u] = Tail(@)]
-            /\ UNCHANGED <<lock, wire, closed, upc, ucur, discAt, immAt>>
+            /\ UNCHANGED <<lock, wire, closed, upc, ucur, discAt, immAt, cipher>>
        [] Op(u)[1] = "f" ->
             /\ IF Locked THEN upc' = [upc EXCEPT ![u] = "f_lock"] ELSE upc' = [upc EXCEPT ![u] = "f_len"]
             /\ ucur' = [ucur EXCEPT ![u] = Op(u)[2]]
-            /\ UNCHANGED <<lock, queue, wire, closed, prog, enq, discAt, immAt>>
+            /\ UNCHANGED <<lock, queue, wire, closed, prog, enq, discAt, immAt, cipher>>
        [] OTHER ->
             /\ upc' = [upc EXCEPT ![u] = "d_lock"]
-            /\ UNCHANGED <<lock, queue, wire, closed, prog, ucur, enq, discAt, immAt>>
-  /\ UNCHANGED <<npc, ncur, nw>>
+            /\ UNCHANGED <<lock, queue, wire, closed, prog, ucur, enq, discAt, immAt, cipher>>
+  /\ UNCHANGED <<npc, ncur, nw, cipher>>
 
 U_Lock(u) ==
   /\ upc[u] \in {"f_lock", "d_lock"} /\ lock = "none"
   /\ lock' = u
-  /\ IF upc[u] = "f_lock" THEN /\ upc' = [upc EXCEPT ![u] = "f_len"] /\ UNCHANGED <<discAt, immAt>>
+  /\ IF upc[u] = "f_lock" THEN /\ upc' = [upc EXCEPT ![u] = "f_len"] /\ UNCHANGED <<discAt, immAt, cipher>>
      ELSE /\ upc' = [upc EXCEPT ![u] = IF Op(u)[1] = "disc" THEN "d_flush" ELSE "d_close"]
           /\ discAt' = IF Op(u)[1] = "disc" /\ discAt = 0 THEN Len(enq) + 1 ELSE discAt
           /\ immAt' = IF Op(u)[1] = "disc_now" /\ immAt = 0 THEN Len(wire) + 1 ELSE immAt
-  /\ UNCHANGED <<queue, wire, closed, prog, ucur, npc, ncur, nw, enq>>
+  /\ UNCHANGED <<queue, wire, closed, prog, ucur, npc, ncur, nw, enq, cipher>>
 
 U_Len(u) == /\ upc[u] = "f_len" /\ Send(u, ucur[u], "len") /\ upc' = [upc EXCEPT ![u] = "f_body"]
-            /\ UNCHANGED <<lock, queue, closed, prog, ucur, npc, ncur, nw, enq, discAt, immAt>>
+            /\ UNCHANGED <<lock, queue, closed, prog, ucur, npc, ncur, nw, enq, discAt, immAt, cipher>>
 U_Body(u) == /\ upc[u] = "f_body" /\ Send(u, ucur[u], "body")
              /\ upc' = [upc EXCEPT ![u] = IF Locked THEN "f_unlock" ELSE "idle"]
              /\ prog' = IF Locked THEN prog ELSE [prog EXCEPT ![u] = Tail(@)]
-             /\ UNCHANGED <<lock, queue, closed, ucur, npc, ncur, nw, enq, discAt, immAt>>
+             /\ UNCHANGED <<lock, queue, closed, ucur, npc, ncur, nw, enq, discAt, immAt, cipher>>
 U_Unlock(u) == /\ upc[u] \in {"f_unlock", "d_unlock"} /\ lock' = "none" /\ upc' = [upc EXCEPT ![u] = "idle"]
                /\ prog' = [prog EXCEPT ![u] = Tail(@)]
-               /\ UNCHANGED <<queue, wire, closed, ucur, npc, ncur, nw, enq, discAt, immAt>>
+               /\ UNCHANGED <<queue, wire, closed, ucur, npc, ncur, nw, enq, discAt, immAt, cipher>>
 \* disconnect: while self._pop_packet(): pass
 U_FlushPop(u) == /\ upc[u] = "d_flush"
                  /\ IF queue = <<>> THEN /\ upc' = [upc EXCEPT ![u] = "d_close"] /\ UNCHANGED <<queue, ucur>>
                     ELSE /\ ucur' = [ucur EXCEPT ![u] = Head(queue)] /\ queue' = Tail(queue)
                          /\ upc' = [upc EXCEPT ![u] = "d_len"]
-                 /\ UNCHANGED <<lock, wire, closed, prog, npc, ncur, nw, enq, discAt, immAt>>
+                 /\ UNCHANGED <<lock, wire, closed, prog, npc, ncur, nw, enq, discAt, immAt, cipher>>
 U_FlushLen(u) == /\ upc[u] = "d_len" /\ Send(u, ucur[u], "len") /\ upc' = [upc EXCEPT ![u] = "d_body"]
-                 /\ UNCHANGED <<lock, queue, closed, prog, ucur, npc, ncur, nw, enq, discAt, immAt>>
+                 /\ UNCHANGED <<lock, queue, closed, prog, ucur, npc, ncur, nw, enq, discAt, immAt, cipher>>
 U_FlushBody(u) == /\ upc[u] = "d_body" /\ Send(u, ucur[u], "body") /\ upc' = [upc EXCEPT ![u] = "d_flush"]
-                  /\ UNCHANGED <<lock, queue, closed, prog, ucur, npc, ncur, nw, enq, discAt, immAt>>
+                  /\ UNCHANGED <<lock, queue, closed, prog, ucur, npc, ncur, nw, enq, discAt, immAt, cipher>>
 \* interrupt, shutdown, close
 U_Close(u) == /\ upc[u] = "d_close" /\ closed' = TRUE /\ upc' = [upc EXCEPT ![u] = "d_unlock"]
-              /\ UNCHANGED <<lock, queue, wire, prog, ucur, npc, ncur, nw, enq, discAt, immAt>>
+              /\ UNCHANGED <<lock, queue, wire, prog, ucur, npc, ncur, nw, enq, discAt, immAt, cipher>>
 
 UStep(u) == U_Start(u) \/ U_Lock(u) \/ U_Len(u) \/ U_Body(u) \/ U_Unlock(u) \/ U_FlushPop(u) \/ U_FlushLen(u)
             \/ U_FlushBody(u) \/ U_Close(u)
 
-\* ---------------------------------------------------------------- networking thread (write loop only)
+\* ---------------------------------------------------------------- networking thread: login step, then write loop
+\* LoginReactor: write_packet(encryption_response, force=True); then install the cipher wrappers
+E_Lock == /\ npc = "e_lock" /\ lock = "none" /\ lock' = "nt" /\ npc' = "e_len"
+          /\ UNCHANGED <<queue, wire, closed, prog, upc, ucur, ncur, nw, enq, discAt, immAt, cipher>>
+E_Len == /\ npc = "e_len" /\ Send("nt", 0, "len") /\ npc' = "e_body"
+         /\ UNCHANGED <<lock, queue, closed, prog, upc, ucur, ncur, nw, enq, discAt, immAt, cipher>>
+E_Body == /\ npc = "e_body" /\ Send("nt", 0, "body") /\ npc' = (IF SwapUnderLock THEN "e_swap" ELSE "e_unlock")
+          /\ UNCHANGED <<lock, queue, closed, prog, upc, ucur, ncur, nw, enq, discAt, immAt, cipher>>
+E_Unlock == /\ npc = "e_unlock" /\ lock' = "none" /\ npc' = (IF SwapUnderLock THEN "top" ELSE "e_swap")
+            /\ UNCHANGED <<queue, wire, closed, prog, upc, ucur, ncur, nw, enq, discAt, immAt, cipher>>
+E_Swap == /\ npc = "e_swap" /\ cipher' = TRUE /\ npc' = (IF SwapUnderLock THEN "e_unlock" ELSE "top")
+          /\ UNCHANGED <<lock, queue, wire, closed, prog, upc, ucur, ncur, nw, enq, discAt, immAt>>
+
 N_Lock == /\ npc = "top" /\ ~closed /\ lock = "none" /\ lock' = "nt" /\ npc' = "pop" /\ nw' = 0
-          /\ UNCHANGED <<queue, wire, closed, prog, upc, ucur, ncur, enq, discAt, immAt>>
+          /\ UNCHANGED <<queue, wire, closed, prog, upc, ucur, ncur, enq, discAt, immAt, cipher>>
 N_Pop == /\ npc = "pop"
          /\ IF queue = <<>> \/ nw >= W \/ closed THEN npc' = "unlock" /\ UNCHANGED <<queue, ncur>>
             ELSE ncur' = Head(queue) /\ queue' = Tail(queue) /\ npc' = "len"
-         /\ UNCHANGED <<lock, wire, closed, prog, upc, ucur, nw, enq, discAt, immAt>>
+         /\ UNCHANGED <<lock, wire, closed, prog, upc, ucur, nw, enq, discAt, immAt, cipher>>
 N_Len == /\ npc = "len" /\ Send("nt", ncur, "len") /\ npc' = "body"
-         /\ UNCHANGED <<lock, queue, closed, prog, upc, ucur, ncur, nw, enq, discAt, immAt>>
+         /\ UNCHANGED <<lock, queue, closed, prog, upc, ucur, ncur, nw, enq, discAt, immAt, cipher>>
 N_Body == /\ npc = "body" /\ Send("nt", ncur, "body") /\ npc' = "pop" /\ nw' = nw + 1
-          /\ UNCHANGED <<lock, queue, closed, prog, upc, ucur, ncur, enq, discAt, immAt>>
+          /\ UNCHANGED <<lock, queue, closed, prog, upc, ucur, ncur, enq, discAt, immAt, cipher>>
 N_Unlock == /\ npc = "unlock" /\ lock' = "none" /\ npc' = "top"
-            /\ UNCHANGED <<queue, wire, closed, prog, upc, ucur, ncur, nw, enq, discAt, immAt>>
-NStep == N_Lock \/ N_Pop \/ N_Len \/ N_Body \/ N_Unlock
+            /\ UNCHANGED <<queue, wire, closed, prog, upc, ucur, ncur, nw, enq, discAt, immAt, cipher>>
+NStep == E_Lock \/ E_Len \/ E_Body \/ E_Unlock \/ E_Swap \/ N_Lock \/ N_Pop \/ N_Len \/ N_Body \/ N_Unlock
 
 Next == (\E u \in Users : UStep(u)) \/ NStep
 \* strong fairness for user steps: a thread waiting for the lock eventually gets it (the networking thread
@@ -128,6 +150,11 @@ FlushBeforeClose ==
 \* an immediate disconnect sends nothing further
 NothingAfterImmediate ==
   (immAt > 0) => \A i \in immAt..Len(wire) : FALSE
+\* everything after the encryption response is encrypted, the response itself and everything before it is not
+RespBody == CHOOSE i \in 1..Len(wire) : wire[i][2] = 0 /\ wire[i][3] = "body"
+NoPlaintextAfterEncResponse ==
+  (Login /\ \E i \in 1..Len(wire) : wire[i][2] = 0 /\ wire[i][3] = "body") =>
+     \A i \in 1..Len(wire) : wire[i][4] = (i > RespBody)
 AllDone == (\A u \in Users : prog[u] = <<>> /\ upc[u] = "idle")
 Terminates == <>AllDone
 =============================================================================
